@@ -6,25 +6,284 @@ import Drx.Lscr
 namespace Drx.Lscr
 open Drx Drx.Gen
 
-/-- classes whose `process` reads `self.param1` -/
-def readsP1 : List String := ["Int1bOpcode", "Int2bOpcode", "LiteralOpcode", "Literal2Opcode", "SymbolOpcode", "PropertyOpcode",
-  "VariableOpcode", "GlobalVariableOpcode", "PropertyNameOpcode", "ParameterNameOpcode", "LocalVariableOpcode", "TellPropertyOpcode",
-  "AssignGlobalVariableOpcode", "LoadPropertyOpcode", "AssignPropertyOpcode", "AssignParameterOpcode", "AssignLocalVariableOpcode",
-  "JumpOpcode", "FowardJumpOpcode", "ConditionalJumpOpcode", "CallLocalOpcode", "CallExternalOpcode", "CallObjectMethodOpcode",
-  "CallExternalMethodOpcode", "PropertyAccesorOpcode", "AssignPropertyAccesorOpcode", "KeyPropertyAccesorOpcode", "CopySymbolOpcode",
-  "DiscardSymbolsOpcode", "LoadListOpcode", "LoadLongListOpcode"]
+/-- table fact (checked by `decide` on the regenerated table): an `OPCODES` entry whose `process` reads `param2` is a
+    3-byte instruction, and one that reads `param1` is a 2- or 3-byte instruction that is not a two-byte opcode proper -/
+def regsTableOk : Bool :=
+  Opcodes.opcodes.all fun e =>
+    let info := e.2
+    (decide (info.impl ∈ readsP2) → decide (info.nbytes = 3 ∧ info.kind ≠ "tri")) &&
+    (decide (info.impl ∈ readsP1) → decide (info.nbytes = 2 ∧ info.kind ≠ "bi" ∧ info.kind ≠ "tri") || decide (info.nbytes = 3 ∧ info.kind ≠ "tri"))
 
-/-- classes whose `process` reads `self.param2` -/
-def readsP2 : List String := ["Int2bOpcode", "Literal2Opcode", "FowardJumpOpcode", "ConditionalJumpOpcode", "LoadLongListOpcode"]
+theorem regsTableOk_true : regsTableOk = true := by decide
 
-theorem process_indep_p2 (ctx : Ctx) (info : Opcodes.OpInfo) (p1 p2 p2' : Nat) (index : Int) (st : PState)
-    (h : info.impl ∉ readsP2) : process ctx info p1 p2 index st = process ctx info p1 p2' index st := by
-  unfold process
-  split <;> first | rfl | (exfalso; simp_all [readsP2])
+theorem lookup_mem {α β : Type} [BEq α] [LawfulBEq α] (l : List (α × β)) (k : α) (v : β) (h : l.lookup k = some v) : (k, v) ∈ l := by
+  induction l with
+  | nil => simp at h
+  | cons x xs ih =>
+    obtain ⟨a, b⟩ := x
+    by_cases hk : k == a
+    · simp only [List.lookup, hk] at h
+      have : a = k := by simp at hk; exact hk.symm
+      cases h; subst this; simp
+    · have hk' : (k == a) = false := by simpa using hk
+      simp only [List.lookup, hk'] at h
+      exact List.mem_cons_of_mem _ (ih h)
 
-theorem process_indep_p1 (ctx : Ctx) (info : Opcodes.OpInfo) (p1 p1' p2 : Nat) (index : Int) (st : PState)
-    (h : info.impl ∉ readsP1) : process ctx info p1 p2 index st = process ctx info p1' p2 index st := by
-  unfold process
-  split <;> first | rfl | (exfalso; simp_all [readsP1])
+theorem Regs.get_set (r : Regs) (k : Nat) (v : Nat × Nat) : (r.set k v).get k = v := by
+  simp [Regs.get, Regs.set, List.lookup]
+
+/-- what a step leaves behind apart from the registers -/
+def stepObs (x : Int × Regs × PState) : Int × PState := (x.1, x.2.2)
+
+theorem process_no_regs (ctx : Ctx) (info : Opcodes.OpInfo) (p1 p2 q1 q2 : Nat) (index : Int) (st : PState)
+    (h1 : info.impl ∉ readsP1) (h2 : info.impl ∉ readsP2) : process ctx info p1 p2 index st = process ctx info q1 q2 index st := by
+  simp [process, h1, h2]
+
+theorem process_p1_only (ctx : Ctx) (info : Opcodes.OpInfo) (p1 p2 q2 : Nat) (index : Int) (st : PState)
+    (h2 : info.impl ∉ readsP2) : process ctx info p1 p2 index st = process ctx info p1 q2 index st := by
+  simp [process, h2]
+
+theorem map_bind_pure {α β γ : Type} (x : R α) (f : α → β) (g : β → γ) :
+    Except.map g (x >>= fun a => pure (f a)) = x >>= fun a => pure (g (f a)) := by
+  cases x <;> rfl
+
+theorem step1_indep (ctx : Ctx) (opcode : Nat) (info : Opcodes.OpInfo) (idxc index : Int) (regs regs' : Regs) (st : PState)
+    (h1 : info.impl ∉ readsP1) (h2 : info.impl ∉ readsP2) :
+    (step1 ctx opcode info idxc index regs st).map stepObs = (step1 ctx opcode info idxc index regs' st).map stepObs := by
+  unfold step1
+  have e := process_no_regs ctx info (regs.get opcode).1 (regs.get opcode).2 (regs'.get opcode).1 (regs'.get opcode).2 index st h1 h2
+  rw [e]
+  generalize process ctx info (regs'.get opcode).1 (regs'.get opcode).2 index st = r
+  cases r <;> rfl
+
+theorem step2_indep (ctx : Ctx) (d : Bytes) (opcode : Nat) (info : Opcodes.OpInfo) (idxc index : Int) (regs regs' : Regs) (st : PState)
+    (h2 : info.impl ∉ readsP2) :
+    (step2 ctx d opcode info idxc index regs st).map stepObs = (step2 ctx d opcode info idxc index regs' st).map stepObs := by
+  unfold step2
+  cases byteAtI d idxc with
+  | error e => simp only [Bind.bind, Except.bind, Except.map]
+  | ok opcode2 =>
+    simp only [Bind.bind, Except.bind]
+    by_cases hk : info.kind = "bi" ∨ info.kind = "tri"
+    · simp only [hk, if_true]
+      cases Opcodes.biOpcodes.lookup (opcode * 256 + opcode2) with
+      | none => rfl
+      | some info2 =>
+        simp only
+        generalize process ctx info2 0 0 index st = r
+        cases r <;> rfl
+    · simp only [hk, if_false, Regs.get_set]
+      have e := process_p1_only ctx info opcode2 (regs.get opcode).2 (regs'.get opcode).2 index st h2
+      rw [e]
+      generalize process ctx info opcode2 (regs'.get opcode).2 index st = r
+      cases r <;> rfl
+
+theorem step3_indep (ctx : Ctx) (d : Bytes) (opcode : Nat) (info : Opcodes.OpInfo) (idxc index : Int) (regs regs' : Regs) (st : PState) :
+    (step3 ctx d opcode info idxc index regs st).map stepObs = (step3 ctx d opcode info idxc index regs' st).map stepObs := by
+  unfold step3
+  cases byteAtI d idxc with
+  | error e => simp only [Bind.bind, Except.bind, Except.map]
+  | ok opcode2 =>
+    simp only [Bind.bind, Except.bind]
+    cases byteAtI d (idxc + 1) with
+    | error e => simp only [Bind.bind, Except.bind, Except.map]
+    | ok opcode3 =>
+      simp only
+      by_cases hk : info.kind = "tri"
+      · simp only [hk, if_true]
+        cases Opcodes.triOpcodes.lookup (opcode * 65536 + opcode2 * 256 + opcode3) with
+        | none => rfl
+        | some info3 =>
+          simp only
+          generalize process ctx info3 0 0 index st = r
+          cases r <;> rfl
+      · simp only [hk, if_false, Regs.get_set]
+        generalize process ctx info opcode2 opcode3 index st = r
+        cases r <;> rfl
+
+theorem stepOpcode_indep (ctx : Ctx) (d : Bytes) (idxc index : Int) (regs regs' : Regs) (st : PState) :
+    (stepOpcode ctx d idxc index regs st).map stepObs = (stepOpcode ctx d idxc index regs' st).map stepObs := by
+  unfold stepOpcode
+  cases hb : byteAtI d idxc with
+  | error e => simp only [Bind.bind, Except.bind, Except.map]
+  | ok opcode =>
+    simp only [Bind.bind, Except.bind]
+    cases hl : Opcodes.opcodes.lookup opcode with
+    | none => rfl
+    | some info =>
+      have hmem := lookup_mem _ _ _ hl
+      have hT := regsTableOk_true
+      unfold regsTableOk at hT
+      rw [List.all_eq_true] at hT
+      have hinfo := hT _ hmem
+      simp only [Bool.and_eq_true, Bool.or_eq_true, decide_eq_true_eq, Bool.decide_and, Bool.decide_eq_true] at hinfo
+      simp only
+      by_cases hn2 : info.nbytes = 2
+      · simp only [hn2, if_true]
+        apply step2_indep
+        intro hc
+        have := (hinfo.1 hc).1
+        omega
+      · by_cases hn3 : info.nbytes = 3
+        · simp only [hn2, hn3, if_true, if_false]
+          apply step3_indep
+        · simp only [hn2, hn3, if_false]
+          apply step1_indep
+          · intro hc
+            rcases hinfo.2 hc with h | h
+            · exact hn2 h.1
+            · exact hn3 h.1
+          · intro hc
+            exact hn3 (hinfo.1 hc).1
+
+theorem opcodeLoop_indep (ctx : Ctx) (d : Bytes) (bcOff bcLen : Int) :
+    ∀ (n : Nat) (idxc : Int) (regs regs' : Regs) (st : PState), (bcLen - (idxc - bcOff)).toNat = n →
+      (opcodeLoop ctx d bcOff bcLen idxc regs st).map Prod.snd = (opcodeLoop ctx d bcOff bcLen idxc regs' st).map Prod.snd := by
+  intro n
+  induction n using Nat.strongRecOn with
+  | _ n ih =>
+    intro idxc regs regs' st hn
+    rw [opcodeLoop, opcodeLoop]
+    by_cases hc : idxc - bcOff < bcLen
+    · simp only [hc, if_true]
+      have hs := stepOpcode_indep ctx d idxc idxc regs regs' st
+      cases h1 : stepOpcode ctx d idxc idxc regs st with
+      | error e1 =>
+        cases h2 : stepOpcode ctx d idxc idxc regs' st with
+        | error e2 => rw [h1, h2] at hs; simp only [Except.map] at hs ⊢; cases hs; rfl
+        | ok v2 => rw [h1, h2] at hs; simp [Except.map] at hs
+      | ok v1 =>
+        cases h2 : stepOpcode ctx d idxc idxc regs' st with
+        | error e2 => rw [h1, h2] at hs; simp [Except.map] at hs
+        | ok v2 =>
+          rw [h1, h2] at hs
+          simp only [Except.map, Except.ok.injEq, stepObs, Prod.mk.injEq] at hs
+          obtain ⟨i1, r1, s1⟩ := v1
+          obtain ⟨i2, r2, s2⟩ := v2
+          simp only at hs
+          obtain ⟨hi, hs'⟩ := hs
+          subst hi; subst hs'
+          simp only
+          by_cases hg : i1 > idxc
+          · simp only [hg, dite_true]
+            exact ih (bcLen - (i1 - bcOff)).toNat (by omega) i1 r1 r2 s1 rfl
+          · simp only [hg, dite_false, Except.map]
+    · simp only [hc, if_false, Except.map]
+
+theorem parseOpcodes_indep (ctx : Ctx) (d : Bytes) (r : FrbRec) (regs regs' : Regs) (bpc : Nat) (tell : Bool) :
+    (parseOpcodes ctx d r regs bpc tell).map Prod.snd = (parseOpcodes ctx d r regs' bpc tell).map Prod.snd := by
+  unfold parseOpcodes
+  have h := opcodeLoop_indep ctx d r.bcOff r.bcLen _ r.bcOff regs regs' { bpc := bpc, tell := tell } rfl
+  cases h1 : opcodeLoop ctx d r.bcOff r.bcLen r.bcOff regs { bpc := bpc, tell := tell } with
+  | error e1 =>
+    cases h2 : opcodeLoop ctx d r.bcOff r.bcLen r.bcOff regs' { bpc := bpc, tell := tell } with
+    | error e2 => rw [h1, h2] at h; simp only [Except.map] at h; cases h; rfl
+    | ok v2 => rw [h1, h2] at h; simp [Except.map] at h
+  | ok v1 =>
+    cases h2 : opcodeLoop ctx d r.bcOff r.bcLen r.bcOff regs' { bpc := bpc, tell := tell } with
+    | error e2 => rw [h1, h2] at h; simp [Except.map] at h
+    | ok v2 =>
+      rw [h1, h2] at h
+      obtain ⟨r1, s1⟩ := v1
+      obtain ⟨r2, s2⟩ := v2
+      simp only [Except.map, Except.ok.injEq] at h
+      subst h
+      simp only [Bind.bind, Except.bind]
+      generalize condDetect s1.stmts = c
+      cases c with
+      | error e => rfl
+      | ok l =>
+        simp only
+        generalize loopDetect l = c2
+        cases c2 <;> rfl
+
+/-- `parseFunc` apart from the registers it hands on -/
+def frbObs (fs : FrbState) : Nat × Bool × List FuncDef := (fs.bpc, fs.tell, fs.funcs)
+
+theorem parseFunc_indep (ctx0 : Ctx) (d : Bytes) (idx : Int) (fs fs' : FrbState) (h : frbObs fs = frbObs fs') :
+    (parseFunc ctx0 d idx fs).map frbObs = (parseFunc ctx0 d idx fs').map frbObs := by
+  obtain ⟨b, t, rg, fn⟩ := fs
+  obtain ⟨b', t', rg', fn'⟩ := fs'
+  simp only [frbObs, Prod.mk.injEq] at h
+  obtain ⟨hb, ht, hf⟩ := h
+  subst hb; subst ht; subst hf
+  unfold parseFunc
+  generalize readFrb ctx0 d idx = rr
+  cases rr with
+  | error e => rfl
+  | ok r =>
+    simp only [Bind.bind, Except.bind]
+    have h := parseOpcodes_indep { ctx0 with params := r.params, localVars := r.locals } d r rg rg' b t
+    cases h1 : parseOpcodes { ctx0 with params := r.params, localVars := r.locals } d r rg b t with
+    | error e1 =>
+      cases h2 : parseOpcodes { ctx0 with params := r.params, localVars := r.locals } d r rg' b t with
+      | error e2 => rw [h1, h2] at h; simp only [Except.map] at h; cases h; rfl
+      | ok v2 => rw [h1, h2] at h; simp [Except.map] at h
+    | ok v1 =>
+      cases h2 : parseOpcodes { ctx0 with params := r.params, localVars := r.locals } d r rg' b t with
+      | error e2 => rw [h1, h2] at h; simp [Except.map] at h
+      | ok v2 =>
+        rw [h1, h2] at h
+        obtain ⟨r1, s1⟩ := v1
+        obtain ⟨r2, s2⟩ := v2
+        simp only [Except.map, Except.ok.injEq] at h
+        subst h
+        rfl
+
+theorem parseFuncs_indep (ctx : Ctx) (d : Bytes) : ∀ (k : Nat) (idx : Int) (fs fs' : FrbState), frbObs fs = frbObs fs' →
+    (parseFuncs ctx d k idx fs).map frbObs = (parseFuncs ctx d k idx fs').map frbObs
+  | 0, idx, fs, fs', h => by simp [parseFuncs, Except.map, h]
+  | k + 1, idx, fs, fs', h => by
+    have h1 := parseFunc_indep ctx d idx fs fs' h
+    simp only [parseFuncs, Bind.bind, Except.bind]
+    cases e1 : parseFunc ctx d idx fs with
+    | error x =>
+      cases e2 : parseFunc ctx d idx fs' with
+      | error y => rw [e1, e2] at h1; simp only [Except.map] at h1 ⊢; cases h1; rfl
+      | ok y => rw [e1, e2] at h1; simp [Except.map] at h1
+    | ok x =>
+      cases e2 : parseFunc ctx d idx fs' with
+      | error y => rw [e1, e2] at h1; simp [Except.map] at h1
+      | ok y =>
+        rw [e1, e2] at h1
+        simp only [Except.map, Except.ok.injEq] at h1
+        exact parseFuncs_indep ctx d k (idx + 42) x y h1
+
+/-- the registers a parse starts with do not influence the script it returns -/
+theorem parseLscrWith_regs_irrelevant (codec : Codec) (regs regs' : Regs) (d : Bytes) (names : List Str) :
+    (parseLscrWith codec regs d names).map Prod.fst = (parseLscrWith codec regs' d names).map Prod.fst := by
+  unfold parseLscrWith
+  generalize readContainer codec d names = rc
+  cases rc with
+  | error e => rfl
+  | ok c =>
+    simp only [Bind.bind, Except.bind]
+    have h := parseFuncs_indep { names := names, constants := c.constants, localFuncs := c.lfn, props := c.props, params := [], localVars := [] }
+      d c.h.frbN.toNat c.h.frbOff { bpc := c.bpc, tell := false, regs := regs, funcs := [] }
+      { bpc := c.bpc, tell := false, regs := regs', funcs := [] } rfl
+    cases e1 : parseFuncs { names := names, constants := c.constants, localFuncs := c.lfn, props := c.props, params := [], localVars := [] }
+      d c.h.frbN.toNat c.h.frbOff { bpc := c.bpc, tell := false, regs := regs, funcs := [] } with
+    | error x =>
+      cases e2 : parseFuncs { names := names, constants := c.constants, localFuncs := c.lfn, props := c.props, params := [], localVars := [] }
+        d c.h.frbN.toNat c.h.frbOff { bpc := c.bpc, tell := false, regs := regs', funcs := [] } with
+      | error y => rw [e1, e2] at h; simp only [Except.map] at h ⊢; cases h; rfl
+      | ok y => rw [e1, e2] at h; simp [Except.map] at h
+    | ok x =>
+      cases e2 : parseFuncs { names := names, constants := c.constants, localFuncs := c.lfn, props := c.props, params := [], localVars := [] }
+        d c.h.frbN.toNat c.h.frbOff { bpc := c.bpc, tell := false, regs := regs', funcs := [] } with
+      | error y => rw [e1, e2] at h; simp [Except.map] at h
+      | ok y =>
+        rw [e1, e2] at h
+        simp only [Except.map, Except.ok.injEq, frbObs, Prod.mk.injEq] at h
+        simp only [Except.map, pure, Except.pure, h.2.2]
+
+/-- the same for the whole entry point (name table chunk + script chunk) -/
+theorem parseScriptWith_regs_irrelevant (codec : Codec) (regs regs' : Regs) (lscr lnam : Bytes) :
+    (parseScriptWith codec regs lscr lnam).map Prod.fst = (parseScriptWith codec regs' lscr lnam).map Prod.fst := by
+  unfold parseScriptWith
+  generalize parseLnam codec lnam = rn
+  cases rn with
+  | error e => rfl
+  | ok names => exact parseLscrWith_regs_irrelevant codec regs regs' lscr names
 
 end Drx.Lscr
